@@ -65,3 +65,38 @@ Proof.
   split; [vm_compute; reflexivity|]. split; [vm_compute; reflexivity|].
   split; vm_compute; discriminate.
 Qed.
+
+(** ** order of the rotations in set_dir (seeded change C03-m2): three nested units
+    placed with Rz(90) and Rx(90); the plane x = 0.5 of the innermost unit has the
+    global normal +y = R0 (R1 n); composing in ascending level order gives +z *)
+Definition nest3_geo : geometry float :=
+  [(Unit [SSphereCentered 0x1.3880000000000p+11] [Vol [0%nat] [LFace 0] false false None; Vol [0%nat] [LFace 0; LNot] false false (Some (1%nat, (XForm (TF (M3 (V3 0 (-0x1.0000000000000p+0) 0) (V3 0x1.0000000000000p+0 0 0) (V3 0 0 0x1.0000000000000p+0)) (V3 0x1.0000000000000p+0 0x1.0000000000000p+1 0x1.8000000000000p+1)))))] None); (Unit [SSphere (V3 (-0x1.0000000000000p+1) 0 0x1.0000000000000p+0) 0x1.2000000000000p+5] [Vol [] [LTrue; LNot] false true None; Vol [0%nat] [LFace 0; LNot] false false (Some (2%nat, (XForm (TF (M3 (V3 0x1.0000000000000p+0 0 0) (V3 0 0 (-0x1.0000000000000p+0)) (V3 0 0x1.0000000000000p+0 0)) (V3 (-0x1.0000000000000p+1) 0 0x1.0000000000000p+0))))); Vol [0%nat] [LFace 0] false false None] None); (Unit [SPlaneAligned AX 0x1.0000000000000p-1] [Vol [] [LTrue; LNot] false true None; Vol [0%nat] [LFace 0; LNot] false false None; Vol [0%nat] [LFace 0] false false None] None)].
+Definition nest3_state : state float :=
+  d_st (exec f1_tol nest3_geo (Drv (initialize nest3_geo (V3 0x1.3333333333333p+0 (-0x1.6666666666668p-1) 0x1.1333333333333p+2) (V3 0 0x1.999999999999ap-1 (-0x1.3333333333333p-1))) false)
+             [FindNext; MoveToBoundary]).
+
+Fixpoint rotate_up_ascending (g : geometry float) (st : state float) (k n : nat) (v : vec3 float) : vec3 float :=
+  match n with
+  | O => v
+  | S m => rotate_up_ascending g st (S k) m (x_rot_up (level_xform g st k) v)
+  end.
+
+Definition local_normal (g : geometry float) (st : state float) : option (nat * vec3 float) :=
+  match st_surf st with
+  | None => None
+  | Some (sl, s, _) =>
+      let ls := get_level st sl in
+      Some (sl, surf_normal (get_surf (get_unit g (ls_univ ls)) s) (ls_pos ls))
+  end.
+
+Theorem set_dir_ascending_refuted :
+  exists (g : geometry float) (st : state float) (u : vec3 float) (sl : nat) (n : vec3 float),
+    local_normal g st = Some (sl, n) /\ sl = 2%nat
+    /\ global_normal g st (nrot_fixed st) = Some (rotate_up_from g st sl n)
+    /\ sign_changes (rotate_up_from g st sl n) (ls_dir (get_level st 0)) u
+       <> sign_changes (rotate_up_ascending g st 0 sl n) (ls_dir (get_level st 0)) u.
+Proof.
+  exists nest3_geo, nest3_state, (V3 0 (-0x1.999999999999ap-1) (-0x1.3333333333333p-1)). eexists. eexists.
+  split; [vm_compute; reflexivity|]. split; [reflexivity|].
+  split; [vm_compute; reflexivity|]. vm_compute. discriminate.
+Qed.
